@@ -124,13 +124,17 @@ ConstructSizes(ty, nv, nhA, naA) ==
        /\ UNCHANGED <<M, events>>
        /\ Step(Act("ConstructSizes", ty, nv, nhA, naA, "", 0, FALSE, ""))
 
-\* the user builds BinaryRBM(nv, nh) / PurificationRBM(nv, nh, na)
-NewModule(kind, sz) ==
-    LET a1 == Alloc(heap, kind, sz[1], sz[2], IF kind = "binary" THEN 0 ELSE sz[3], InitVals(kind, fresh))
+\* the user builds BinaryRBM(nv, nh) / PurificationRBM(nv, nh, na), optionally with zero_weights=True
+\* (every parameter zero, nothing drawn).  The flag is a property of that one construction: a later
+\* reinitialisation of a state that uses the module draws random weights like any other (Reinit below).
+NewModule(kind, sz, zw) ==
+    LET vals == IF zw THEN [i \in 1..Len(Names(kind)) |-> Zero] ELSE InitVals(kind, fresh)
+        a1 == Alloc(heap, kind, sz[1], sz[2], IF kind = "binary" THEN 0 ELSE sz[3], vals)
     IN /\ heap' = a1.heap /\ nets' = Append(nets, a1.net) /\ M' = Len(nets) + 1
-       /\ fresh' = fresh + Len(Names(kind)) /\ rng' = rng + NWeights(kind) /\ err' = ""
+       /\ fresh' = fresh + Len(Names(kind)) /\ rng' = rng + (IF zw THEN 0 ELSE NWeights(kind)) /\ err' = ""
        /\ UNCHANGED <<S, events>>
-       /\ Step(Act("NewModule", kind, sz[1], sz[2], IF kind = "binary" THEN 0 ELSE sz[3], "", 0, FALSE, ""))
+       /\ Step(Act("NewModule", kind, sz[1], sz[2], IF kind = "binary" THEN 0 ELSE sz[3], "", 0, FALSE,
+                   IF zw THEN "zero_weights" ELSE ""))
 
 \* Type(nvArg, module=M): M is the amplitude network; the phase network is an independent copy
 ConstructModule(ty, nvArg) ==
@@ -206,7 +210,7 @@ Init == /\ heap = <<>> /\ nets = <<>> /\ S = [type |-> "none", am |-> 0, ph |-> 
 
 Next == /\ n < MaxLen
         /\ \/ \E ty \in Types, nv \in NVs, nh \in NHs, na \in NAs : ConstructSizes(ty, nv, nh, na)
-           \/ \E kind \in {KindOf(ty) : ty \in Types}, sz \in ModSizes : NewModule(kind, sz)
+           \/ \E kind \in {KindOf(ty) : ty \in Types}, sz \in ModSizes, zw \in BOOLEAN : NewModule(kind, sz, zw)
            \/ \E ty \in Types, nv \in NVs : ConstructModule(ty, nv)
            \/ \E tgt \in {"am", "ph", "M"}, idx \in MutIdx : Mutate(tgt, idx)
            \/ Reinit
